@@ -7,7 +7,8 @@ class C04(ViewsCheck):
     mode = "read"
     exh_kind = "read"
     gen_cfg = "GenViews_read.cfg"
-    types_thorough = ["f64", "f32", "i32", "i64"]
+    types_quick = ["f64", "f32", "i32", "c64"]
+    types_thorough = ["f64", "f32", "i32", "i64", "c64"]     # complex<float> strided views compile in no configuration: not offered
     rule = ("behaviours = `tlc -generate` walks of GenViews (Mode=read): slices of ranks 1-4 in every admissible encoding (dynamic seq, "
             "compile-time fseq / fix / all, immediate iseq, bare integers, negative and last-relative bounds) read into a tensor of the "
             "slice's static shape, alone and inside the expression m*slice+c, scalar indexing with negative indices, interleaved with "
